@@ -87,7 +87,16 @@ def install_loop_rule(sess, fname, obprefix):
         ctx = it.ctx
         st = iterable.state
         t = iterable.t
-        ev = it.lookup('event', fr)
+        ev = None
+        f_ = fr
+        while f_ is not None and ev is None:       # the event being fed, whatever the parameter is called
+            for v_ in f_.vars.values():
+                if isinstance(v_, Obj) and getattr(v_, 'hid', None) is not None:
+                    ev = v_
+                    break
+            f_ = f_.parent
+        if ev is None:
+            raise Unsupported('key loop outside an event-feeding function')
         n = ev.hid
         tag = ctx.fresh('loop')
         entry = st.snap()
